@@ -87,6 +87,8 @@ theorem edgeNeiOverlap_perm (A : AMat Int n) :
 theorem gtom_perm_of_le_two (A : AMat Int n) (s : Nat) (hs : s ≤ 2) : gtom (permA σ A) s = permA σ (gtom A s) := by
   have h0 : s - 2 = 0 := by omega
   apply AMat.ext_get; intro i j
-  simp [gtom, h0, gtomAux, bin_perm, mmul_perm, colSum_perm]
+  by_cases hs0 : s = 0
+  · simp [gtom, hs0, bin_perm]
+  · simp [gtom, hs0, h0, gtomAux, bin_perm, mmul_perm, colSum_perm]
 
 end Bct.Measures
